@@ -306,7 +306,7 @@ func c13SwapGuard(c *Ctx) {
 	p := c.P
 	rule := "C13.swap-guard"
 	c.Doc(rule, "processPartitionMovement is called only by reassignPartition, with the partition returned by movements.getTheActualPartitionToBeMoved(partition, currentPartitionConsumer[partition], newConsumer) and the same newConsumer; getTheActualPartitionToBeMoved looks up the pair {Src: newConsumer, Dst: old owner} (the reverse of the move) in the topic's record and returns a partition ranged from that record when it exists; processPartitionMovement calls movements.movePartition(partition, old owner, newConsumer) on every path")
-	c.Floor(rule, 4)
+	c.Floor(rule, 6)
 	// (a) who may call
 	nCalls := 0
 	for _, fn := range p.Fns {
@@ -321,9 +321,12 @@ func c13SwapGuard(c *Ctx) {
 			if ok {
 				ok = false
 				detail = "the partition moved is not the one chosen by getTheActualPartitionToBeMoved for this (old owner, new owner) pair"
-				if cl, isC := strip(a[1]).(*ssa.Call); isC && p.CalleeName(&cl.Call) == "partitionMovements.getTheActualPartitionToBeMoved" && len(cl.Call.Args) == 4 {
+				callee := s.In.(*ssa.Call).Call.StaticCallee()
+				iPart, iNew := paramIdxByName(callee, "partition", 1), paramIdxByName(callee, "newConsumer", 2)
+				hPart, hOwners, hNew := paramIdxByName(fn, "partition", 1), paramIdxByName(fn, "currentPartitionConsumer", 4), paramIdxByName(fn, "newConsumer", 5)
+				if cl, isC := strip(a[iPart]).(*ssa.Call); isC && p.CalleeName(&cl.Call) == "partitionMovements.getTheActualPartitionToBeMoved" && len(cl.Call.Args) == 4 {
 					lk, isL := strip(cl.Call.Args[2]).(*ssa.Lookup)
-					ok = ParamN(1)(cl.Call.Args[1]) && isL && ParamN(4)(lk.X) && ParamN(1)(lk.Index) && ParamN(5)(cl.Call.Args[3]) && ParamN(5)(a[2])
+					ok = ParamN(hPart)(cl.Call.Args[1]) && isL && ParamN(hOwners)(lk.X) && ParamN(hPart)(lk.Index) && ParamN(hNew)(cl.Call.Args[3]) && ParamN(hNew)(a[iNew])
 				}
 			}
 			c.Check(ok, rule, fn, "move-through-record", s.Instr(), "the move goes through reassignPartition and moves the partition the movement record chose", detail+": two members can swap partitions of one topic (A→B and B→A), which the sticky contract forbids", nil)
@@ -342,11 +345,63 @@ func c13SwapGuard(c *Ctx) {
 			if len(a) != 4 {
 				return false
 			}
+			iPart, iNew, iOwners := paramIdxByName(fn, "partition", 1), paramIdxByName(fn, "newConsumer", 2), paramIdxByName(fn, "currentPartitionConsumer", 5)
 			lk, isL := strip(a[2]).(*ssa.Lookup)
-			return ParamN(1)(a[1]) && isL && ParamN(5)(lk.X) && ParamN(1)(lk.Index) && ParamN(2)(a[3])
+			return ParamN(iPart)(a[1]) && isL && ParamN(iOwners)(lk.X) && ParamN(iPart)(lk.Index) && ParamN(iNew)(a[3])
 		}
 		esc, path := WholeFn(fn).Escape(rec)
 		c.Check(!esc, rule, fn, "move-recorded", nil, "movePartition(partition, old owner, new owner) on every path", "a move is not recorded (or recorded with other members) in the movement record: later reverse moves are not recognised", path)
+	}
+	// (b2) what is recorded: the net movement of the partition within this plan
+	if fn := c.NeedFn(rule, "partitionMovements.movePartition"); fn != nil {
+		reg := WholeFn(fn)
+		existed := Truth{func(v ssa.Value) bool {
+			ex, ok := v.(*ssa.Extract)
+			if !ok || ex.Index != 1 {
+				return false
+			}
+			lk, ok := ex.Tuple.(*ssa.Lookup)
+			return ok && FieldLoad("partitionMovements.Movements")(lk.X)
+		}, true}
+		removed := p.ResultOf(0, "partitionMovements.removeMovementRecordOfPartition")
+		prevSrc := func(v ssa.Value) bool {
+			// existingPair.SrcMemberID: field of the removed record (through its local cell)
+			ch := fieldChain(strip(v))
+			if len(ch) == 0 || ch[len(ch)-1].name != "SrcMemberID" {
+				return false
+			}
+			base := ch[0].base
+			if al, ok := base.(*ssa.Alloc); ok {
+				for _, r := range *al.Referrers() {
+					if st, ok := r.(*ssa.Store); ok && st.Addr == ssa.Value(al) && removed(st.Val) {
+						return true
+					}
+				}
+				return false
+			}
+			return removed(base)
+		}
+		adds := reg.Find(p.CallTo("partitionMovements.addPartitionMovementRecord"))
+		if len(adds) == 0 {
+			c.Unresolved(rule, "addPartitionMovementRecord in movePartition")
+		}
+		for _, a := range adds {
+			args := callArgs(a)
+			f := structLitFields(args[2])
+			onExisting, _ := reg.Guarded(a, existed)
+			var ok bool
+			var want string
+			if onExisting {
+				want = "{Src: the recorded movement's source, Dst: newConsumer}"
+				notBack, _ := reg.Guarded(a, Cmp{token.NEQ, prevSrc, ParamN(3)})
+				ok = f != nil && f["SrcMemberID"] != nil && prevSrc(f["SrcMemberID"]) && f["DstMemberID"] != nil && ParamN(3)(f["DstMemberID"]) && notBack
+			} else {
+				want = "{Src: oldConsumer, Dst: newConsumer}"
+				ok = f != nil && f["SrcMemberID"] != nil && ParamN(2)(f["SrcMemberID"]) && f["DstMemberID"] != nil && ParamN(3)(f["DstMemberID"])
+			}
+			c.Check(ok, rule, fn, "net-movement-recorded:"+map[bool]string{true: "moved-before", false: "first-move"}[onExisting], a.Instr(), "the record written is "+want,
+				"the movement recorded for a partition is not "+want+": a partition that moved twice in one plan is remembered by its last hop instead of its net movement, so the reverse-pair lookup misses it and two members swap partitions of one topic", nil)
+		}
 	}
 	// (c) reverse pair
 	if fn := c.NeedFn(rule, "partitionMovements.getTheActualPartitionToBeMoved"); fn != nil {
